@@ -20,7 +20,7 @@ tvars == <<vars, l>>
 InitLast  == [i |-> 0, it |-> NoItem, nrep |-> 0, rel |-> FALSE, pan |-> FALSE, big |-> FALSE]
 InitRLast == [op |-> "init", code |-> -1, method |-> "", ncalls |-> 0, argeq |-> TRUE, reseq |-> TRUE, aerr |-> FALSE,
               cerr |-> FALSE, pan |-> FALSE, remote |-> FALSE, toolran |-> FALSE, lines |-> <<>>, slots |-> <<>>,
-              exit |-> 0, steq |-> TRUE, mode |-> "model"]
+              exit |-> 0, steq |-> TRUE, mode |-> "model", shape |-> "normal"]
 LoadW(s) == pos' = s.pos /\ status' = s.st /\ out' = s.out /\ stream' = <<>>
 SameW(s) == pos = s.pos /\ status = s.st /\ out = s.out
 LoadR(s) == ag' = s.h /\ dag' = s.h /\ hist' = 0
